@@ -22,7 +22,8 @@ RULE = (
     "PYTHONHASHSEED (quick: 0, 1, 2 and one VERIF_SEED-derived value; thorough: 0, 1, 2, 3, 42, 12345, 2**32-1 and "
     "one derived value) computes SHA-256 of every artefact twice in-process: interaction lists, write_json bytes, "
     "write_csv bytes, BPSEQ, dot-bracket, extended dot-bracket, the ORDERED list of all dot-brackets (BpSeq and "
-    "Mapping2D3D, with and without gap detection), element descriptions, annotator CLI stdout/JSON/CSV, write_pdb "
+    "Mapping2D3D, with and without gap detection), element descriptions, annotator CLI stdout/JSON/CSV, the stdout of clashfinder and "
+    "motif_extractor and the files written by splitter for the same input, write_pdb "
     "and write_cif text of the atom table, both removals. Oracle (metamorphic): all digests equal across "
     "interpreters, seeds and passes. Non-trivial: an input whose all-dot-brackets list has >=2 members, or a 3D "
     "file with >=1 base pair, stacking and BPh/BR contact; distinct = distinct input."
